@@ -1,0 +1,59 @@
+//go:build verif
+
+package fox
+
+import (
+	"sync"
+
+	"github.com/tigerwill90/fox/internal/simplelru"
+)
+
+// Exported view of the yield points for the simulator.
+const (
+	SimPtLocked     = ptLocked
+	SimPtBeforeLoad = ptBeforeLoad
+	SimPtAfterLoad  = ptAfterLoad
+	SimPtCommit     = ptCommit
+	SimPtStored     = ptStored
+	SimPtUnlocked   = ptUnlocked
+	SimPtAbort      = ptAbort
+	SimPtRouteOpts  = ptRouteOpts
+)
+
+// SimHooks are assigned by a deterministic simulator (build tag verif only). All of them may be nil.
+var SimHooks struct {
+	// Acquire is called just before the writer lock is taken. probe reports whether the lock is currently free
+	// (it never keeps it). The simulator yields until probe returns true, so that the real Lock that follows
+	// never blocks a goroutine.
+	Acquire func(probe func() bool)
+	// Point is called at each yield point.
+	Point func(pt int)
+	// CacheSize returns the capacity to give to the copy-on-write cache of a write transaction, or 0 to keep the default.
+	CacheSize func() int
+}
+
+func simAcquire(mu *sync.Mutex) {
+	if h := SimHooks.Acquire; h != nil {
+		h(func() bool {
+			if mu.TryLock() {
+				mu.Unlock()
+				return true
+			}
+			return false
+		})
+	}
+}
+
+func simPoint(pt int) {
+	if h := SimHooks.Point; h != nil {
+		h(pt)
+	}
+}
+
+func simTuneCache(lru *simplelru.LRU[*node, any]) {
+	if h := SimHooks.CacheSize; h != nil {
+		if k := h(); k > 0 {
+			lru.Resize(k)
+		}
+	}
+}
